@@ -54,6 +54,15 @@ def step (P : Sekai.Perm.St) (s : St) (toks : List String) : St × String :=
       (s, match tallyF32 y n a v ac t with
           | .passed => "passed" | .rejected => "rejected" | .rejectedWithVeto => "veto" | .unknown => "unknown")
     | _, _, _, _, _, _ => (s, "bad-op")
+  | "local-tally" :: rest =>
+    match (lookup rest "q").bind Dec.fromStr, (lookup rest "accs").bind natList?, (lookup rest "role").bind natList?,
+          lookupNat rest "y", lookupNat rest "n", lookupNat rest "a", lookupNat rest "v", lookupNat rest "o" with
+    | some q, some accs, some role, some y, some n, some a, some v, some o =>
+      (s, match localResult tallyF32 q accs role y n a v o with
+          | none => "panic"
+          | some .enactment => "enactment" | some .quorumNotReached => "noquorum" | some .rejected => "rejected"
+          | some .rejectedWithVeto => "veto" | some _ => "unknown")
+    | _, _, _, _, _, _, _, _ => (s, "bad-op")
   | ["quorum", q, votes, total] =>
     match Dec.fromStr q, nat? votes, nat? total with
     | some q, some v, some t =>
